@@ -15,8 +15,12 @@ violated ones the driver reports for a concrete (registry, statement) pair.
                              pairwise distinct column names (the identity select over a CTE reads columns by name)
   H_starSourcesOrdered       no `*` over a FROM list in which a subquery precedes a named table / CTE
                              (sqlglot's star expansion lists named sources first)
+  H_noCteCapturesViewTable   no CTE of the statement is named like a table that a referenced view's chain reads
+                             (the chain is added to the statement's WITH list unchanged: the CTE would capture the read)
   closedness (not defects)   referenced views are wrapped and closed: their bodies mention only their own CTEs
-                             or base tables that are neither CTEs of the statement nor generated names
+                             or base tables that are not generated CTE names of another referenced view
+  lexicalCtes (not a defect) CTE names of the statement are pairwise distinct, and a CTE definition refers to
+                             itself / a later CTE only where that name is a temp view (Spark then means the view)
 -/
 import SqlframeModel.Impl.C13Views
 namespace Sqlframe.Views
@@ -26,7 +30,19 @@ section
 variable (cfg : SpliceCfg) (norm : Name → Name) (reg : Registry) (q : Query)
 
 /-- registry entries of the views the statement references, in reference order -/
-def visited : List Entry := q.refs.filterMap (viewOf cfg norm reg (names q.ctes))
+def visited : List Entry := viewRefs cfg norm reg q
+
+/-- no two CTEs of the statement have the same name (the engine rejects such a statement) -/
+def ctesNodup : Bool := decide (names q.ctes).Nodup
+
+/-- every reference inside a CTE definition is to a CTE defined before it, to a name that is no CTE of
+    the statement at all, or is treated as a view reference (and renamed away by the splice).  What is
+    excluded: a reference to the CTE being defined or to a later one that is *not* a view — Spark rejects
+    it or reads a table, the engine binds it by name to the later CTE. -/
+def lexicalRefs : Bool :=
+  q.ctes.all (fun c => c.2.refs.all (fun m =>
+    (scopeBefore q.ctes c.1).contains m || !(names q.ctes).contains m
+      || (viewOf cfg norm reg (scopeBefore q.ctes c.1) m).isSome))
 
 def noShadow : Bool := cfg.skipBound || (names q.ctes).all (fun c => (assoc reg (norm c)).isNone)
 
@@ -48,15 +64,22 @@ def Frame.isWrapped (fr : Frame) : Bool :=
   | some (n, _), .un .byName (.scan m) => n = m
   | _, _ => false
 
-/-- a name a view body may scan besides its own CTEs: a base table -/
+/-- a name a view body may scan besides its own CTEs: not a generated CTE name of a referenced view -/
 def isBaseName (n : Name) : Bool :=
-  !(names q.ctes).contains n && (visited cfg norm reg q).all (fun e => !(names e.frame.ctes).contains n)
+  (visited cfg norm reg q).all (fun e => !(names e.frame.ctes).contains n)
 
 def viewsClosed : Bool :=
   (visited cfg norm reg q).all (fun e =>
     e.frame.isWrapped &&
     e.frame.ctes.all (fun c => c.2.refs.all (fun m =>
       (names e.frame.ctes).contains m || isBaseName cfg norm reg q m)))
+
+/-- no CTE of the statement is named like a table that the chain of a referenced view reads: the view's
+    CTEs are added to the statement's WITH list as they are, so such a CTE would capture the view's read -/
+def noCapture : Bool :=
+  (visited cfg norm reg q).all (fun e =>
+    e.frame.ctes.all (fun c => c.2.refs.all (fun m =>
+      (names e.frame.ctes).contains m || !(names q.ctes).contains m)))
 
 def schemaFresh : Bool := (visited cfg norm reg q).all (fun e => !e.stale)
 
@@ -87,6 +110,8 @@ def violated (db : Db) (norm : Name → Name) (reg : Registry) (q : Query) (resu
   ++ (if schemaFresh genCfg norm reg q then [] else ["H_reregisterKeepsColumns"])
   ++ (if uniqueNames db norm reg q then [] else ["H_uniqueOutputNames"])
   ++ (if starsOrdered q then [] else ["H_starSourcesOrdered"])
+  ++ (if noCapture genCfg norm reg q then [] else ["H_noCteCapturesViewTable"])
   ++ (if viewsClosed genCfg norm reg q then [] else ["closedViews"])
+  ++ (if ctesNodup q && lexicalRefs genCfg norm reg q then [] else ["lexicalCtes"])
 
 end Sqlframe.Views
